@@ -625,6 +625,23 @@ class VecEval:
                 for a in v:
                     s = s + a
                 return s if fn == 'numpy.sum' else s / Rat.const(self.r)
+            if fn in ('numpy.var', 'np.var') and len(e.args) == 1 and set(kw) <= {'ddof'}:
+                # the variance of the entries: sum (x - mean)^2 / (r - ddof)
+                v = self.ev(e.args[0])
+                if not isinstance(v, Vec):
+                    raise AlgebraError('reduction of a scalar')
+                try:
+                    ddof = int(kw.get('ddof', '0'))
+                except ValueError:
+                    raise AlgebraError('ddof %s' % kw.get('ddof'))
+                mean = Rat.const(0)
+                for a in v:
+                    mean = mean + a
+                mean = mean / Rat.const(self.r)
+                s = Rat.const(0)
+                for a in v:
+                    s = s + (a - mean) * (a - mean)
+                return s / Rat.const(self.r - ddof)
             raise AlgebraError('call %s' % fn)
         raise AlgebraError('expression %s' % type(e).__name__)
 
